@@ -38,6 +38,108 @@ pub fn generate(r: &mut Rng, tier: Tier) -> Scenario {
     }
 }
 
+/// The family behind the scaling clause: `n` two-instruction blocks chained against the direction
+/// of their jumps (one value-analysis run needs about `n` sweeps), then `k` ecalls in a row, each
+/// entered from its own feeder with a7 = 10/93 and by fall-through from the one before, so that
+/// ecall i becomes a known exit only after the edge leaving ecall i-1 has been cut.
+pub fn scaling_family(k: usize, n: usize) -> String {
+    let mut l: Vec<String> = vec!["main:".into(), "    j c1".into()];
+    for i in (1..=n).rev() {
+        l.push(format!("c{i}:"));
+        l.push("    addi t0, t0, 1".into());
+        l.push(if i < n { format!("    j c{}", i + 1) } else { "    j disp".into() });
+    }
+    l.push("disp:".into());
+    for i in 0..k {
+        l.push(format!("    beq a0, t{}, feed{i}", i % 3 + 1));
+    }
+    l.push("    j fin".into());
+    for i in 0..k {
+        l.push(format!("feed{i}:"));
+        l.push(format!("    li a7, {}", if i % 2 == 0 { 10 } else { 93 }));
+        l.push(format!("    j e{i}"));
+    }
+    for i in 0..k {
+        l.push(format!("e{i}:"));
+        l.push("    ecall".into());
+    }
+    l.push("fin:".into());
+    l.push("    li a7, 10".into());
+    l.push("    ecall".into());
+    l.join("\n") + "\n"
+}
+
+/// Run index 0 of every batch: the same family at size m and 2m (in two files of one world, each
+/// analysed on its own), to see how the number of sweeps grows with the program.
+pub fn generate_scaling(r: &mut Rng, tier: Tier) -> Scenario {
+    let m = if tier == Tier::Quick { 16 } else { 32 };
+    let mut world = crate::world::World::single(&scaling_family(m, m));
+    world.files.insert("double.s".into(), scaling_family(2 * m, 2 * m));
+    Scenario {
+        property: "C12".into(),
+        variant: "t1-scaling".into(),
+        world,
+        personality: crate::reader::Personality::Strict,
+        reader_faults: vec![],
+        entropy: vec![r.next_u64() >> 11],
+        history: vec![],
+        t2: None,
+        content_faults: vec![],
+        expected_levels: std::collections::BTreeMap::new(),
+        note: format!("scaling family exit-cascade-behind-reversed-chain, m={m} and {}", 2 * m),
+    }
+}
+
+fn check_scaling(scn: &Scenario, stats: &mut Stats) -> Vec<Violation> {
+    let mut out = Vec::new();
+    let mut feats = BTreeMap::new();
+    feats.insert("family".to_string(), "exit-cascade-behind-reversed-chain".to_string());
+    let mut rows: Vec<(u64, BTreeMap<String, u64>)> = Vec::new();
+    for f in ["base.s", "double.s"] {
+        let Some(text) = scn.world.files.get(f) else { return out };
+        // the clause compares two members of one family: anything else (a minimiser's cut, say)
+        // gets no verdict
+        let k = text.lines().filter(|l| l.starts_with("feed")).count();
+        if k < 8 || *text != scaling_family(k, k) {
+            stats.inc("scaling:not-a-family-member(no verdict)");
+            return out;
+        }
+        let w = crate::world::World::single(text);
+        let mut spec = LintSpec::new(&w, scn.entropy[0], Api::Coded);
+        spec.want_snapshot = true;
+        let o = lint::run(&spec);
+        stats.inc("t1_incarnations");
+        stats.inc("scaling_analyses");
+        if let Some(site) = o.panic.as_ref().and_then(|p| p.budget_site.clone()) {
+            out.push(viol("sweeps-bounded", format!("does-not-converge:{site}"), format!("scaling family {f}: the {site} loop passed its hard cap"), &feats));
+            return out;
+        }
+        let Some(s) = o.snapshot else { return out };
+        rows.push((s.nodes.len() as u64, o.ticks.clone()));
+    }
+    let [(n1, t1), (n2, t2)] = [rows[0].clone(), rows[1].clone()];
+    for site in ["available-sweep", "liveness-sweep"] {
+        let (a, b) = (t1.get(site).copied().unwrap_or(0), t2.get(site).copied().unwrap_or(0));
+        stats.add(&format!("scaling:{site}:small"), a);
+        stats.add(&format!("scaling:{site}:double"), b);
+        // sweeps per node: constant when the sweeps are a multiple of the size; here it may grow
+        // by half before the clause speaks (a quadratic count doubles it)
+        let (ra, rb) = (a as f64 / n1 as f64, b as f64 / n2 as f64);
+        // (only between two programs of real size, the second clearly larger)
+        if n1 >= 40 && 2 * n2 >= 3 * n1 && a > 0 && rb > 1.5 * ra && b > 2 * n2 {
+            out.push(viol(
+                "sweeps-bounded",
+                format!("sweeps-grow-faster-than-the-program:{site}"),
+                format!("the pipeline needs {a} {site}s for {n1} nodes ({ra:.1} per node) but {b} for {n2} nodes ({rb:.1} per node): not a multiple of the program size"),
+                &feats,
+            ));
+            return out;
+        }
+    }
+    stats.nontrivial_worlds.insert(scn.world.content_hash());
+    out
+}
+
 fn viol(clause: &str, class: String, detail: String, feats: &BTreeMap<String, String>) -> Violation {
     Violation { property: "C12".into(), clause: clause.into(), class, detail, features: feats.clone() }
 }
@@ -58,6 +160,9 @@ fn lints_only(d: &[NDiag]) -> Vec<NDiag> {
 }
 
 pub fn check(scn: &Scenario, stats: &mut Stats) -> Vec<Violation> {
+    if scn.variant == "t1-scaling" {
+        return check_scaling(scn, stats);
+    }
     let mut out = Vec::new();
     let wh = scn.world.content_hash();
     stats.worlds.insert(wh);
